@@ -12,7 +12,7 @@ from symx.stubs import fakefs
 from harness import memlib
 
 # near-colliding values: equal under ==, equal hash(), prefixes, str/bytes, list/tuple
-U = [1, 1.0, True, 0, -1, -2, "a", b"a", (1,), [1], None]
+U = [1, 1.0, True, 0, -1, -2, "a", b"a", (1,), [1], None, {1}, frozenset({1})]
 
 SRC = '''
 import functools
